@@ -385,7 +385,7 @@ Lemma acks_conserved frac period : forall ops s c,
 Proof.
   induction ops as [|o t IH]; intros s c; cbn [all_appended all_emitted fold_left].
   - now rewrite app_nil_r.
-  - rewrite app_assoc, step_acks, <- !app_assoc. f_equal. apply IH.
+  - rewrite app_assoc, (step_acks frac period), <- !app_assoc. f_equal. apply IH.
 Qed.
 
 (* ---------------------------------------------------------------- frame for the other ops *)
